@@ -136,3 +136,17 @@ reg(
     "Finite grid; entries inside one top-level equation compared as a multiset; array constructors with variable "
     "elements and nested literal matrices in equations are outside the alphabet (not in the statement's list).",
 )
+
+reg(
+    "C23",
+    "E4-enum",
+    "exploration",
+    "full window product of subscripts / slice bounds / loop ranges around the valid range, reference index semantics",
+    "For 1-D arrays of size 1..3 every subscript in [-1, n+2] (both sides of an equation), every slice lo:hi over the "
+    "window with a sized and a shape-agnostic consumer, every for-loop lo:hi over the window with x[i], x[i+1], x[i-1]; "
+    "for 2x2 / 2x3 matrices every (i,j), (i,:), (:,j) (thorough: A[i, lo:hi]); subscripts on scalars. The reference "
+    "decides in/out of range: in range must generate and select exactly those elements (3 grid points, distinct element "
+    "values), out of range must raise from generate() or residual construction.",
+    "Arrays up to size 3 and window +-2; empty ranges (hi < lo) are legal and not judged; 3-D arrays and nested "
+    "component arrays are not in the alphabet.",
+)
